@@ -33,6 +33,7 @@ def face_area(mesh : Mesh, name="area", persistent:bool=True, dense:bool=True) -
             area[T] = geom.quad_area(*pts)
         else:
             bary = sum(pts)/npt
+            area[T] = 0. # do not accumulate on top of a value computed earlier under the same attribute name
             for i in range(npt):
                 A = pts[i]
                 B = pts[(i+1)%npt]
